@@ -359,6 +359,17 @@ fn gen_population(r: &mut Rng, kind: PoolKind, n: usize) -> Vec<Timed> {
                 PoolKind::Http => ConnKind::Http1,
             };
             let mut c = conn::build(r, ck, *c, *s, &o);
+            // (the population keeps the classic shape - data only after the handshake: a first part that rides on the
+            // SYN is moved back behind the handshake's last segment)
+            if let Some(si) = c.steps.iter().position(|st| st.seg.flags & pkt::SYN != 0 && st.seg.flags & pkt::ACK == 0 && !st.seg.payload.is_empty()) {
+                let payload = std::mem::take(&mut c.steps[si].seg.payload);
+                let at = c.steps.iter().position(|st| st.seg.src == c.client && st.seg.flags & pkt::SYN == 0).unwrap_or(c.steps.len() - 1);
+                let mut d = c.steps[at].clone();
+                d.seg.payload = payload;
+                d.seg.flags = pkt::ACK | pkt::PSH;
+                d.seg.seq = c.steps[si].seg.seq.wrapping_add(1);
+                c.steps.insert(at + 1, d);
+            }
             // every connection must be incomplete for a while: the client's bytes are re-cut into exactly two segments,
             // the first ending inside the message that yields the result (ClientHello record / request head)
             let client = c.client;
@@ -382,6 +393,13 @@ fn gen_population(r: &mut Rng, kind: PoolKind, n: usize) -> Vec<Timed> {
                     let mut second = c.steps[i0].clone();
                     second.seg.payload = stream[cut..].to_vec();
                     second.seg.seq = c.steps[i0].seg.seq.wrapping_add(cut as u32);
+                    if second.seg.flags & pkt::SYN != 0 {
+                        // the first part rides on the SYN (Fast Open): the rest is an ordinary segment, and the data
+                        // started one sequence number after the SYN's own
+                        second.seg.flags = pkt::ACK | pkt::PSH;
+                        second.seg.seq = second.seg.seq.wrapping_add(1);
+                        second.seg.ack = 1;
+                    }
                     if fin {
                         second.seg.flags |= pkt::FIN;
                     }
@@ -476,7 +494,7 @@ impl Prop for C10 {
     }
 
     fn run_wall_limit_s() -> u64 {
-        900
+        60
     }
 
     fn panics_are_violations() -> bool {
@@ -546,7 +564,7 @@ impl Prop for C08Pool {
     }
 
     fn run_wall_limit_s() -> u64 {
-        900
+        60
     }
 
     fn generate(r: &mut Rng, tier: Tier, _idx: u64) -> Scn {
@@ -589,7 +607,7 @@ impl Prop for C01Pool {
     }
 
     fn run_wall_limit_s() -> u64 {
-        900
+        60
     }
 
     fn generate(r: &mut Rng, tier: Tier, _idx: u64) -> Scn {
@@ -669,7 +687,7 @@ impl Prop for C15Pool {
     }
 
     fn run_wall_limit_s() -> u64 {
-        900
+        60
     }
 
     fn generate(r: &mut Rng, tier: Tier, _idx: u64) -> Scn {
